@@ -68,6 +68,14 @@ Inductive pop := PNext | PFetch | PReset.
    true = the page is re-read from /proc/pid/mem *)
 Definition page_from_mem (bits4 : N) : bool :=
   negb (N.land bits4 12 =? 0) && (N.land bits4 2 =? 0).
+(* the page is in RAM or in swap: the process has touched it *)
+Definition page_present (bits4 : N) : bool := negb (N.land bits4 12 =? 0).
+(* `partial_page_index`: the page holding the end of the backing file, when the file ends inside the
+   fetched chunk (`max_length < length`) and inside a page.  What the process wrote in that page past
+   the end of the file is in the page only (a shared mapping keeps it "file-backed"), so the page is
+   re-read from /proc/pid/mem whenever it is present. *)
+Definition partial_page (pg maxl ln : N) : option N :=
+  if (maxl <? ln) && negb (maxl mod pg =? 0) then Some (maxl / pg) else None.
 
 Inductive pout :=
 | ONone                       (* next: end of listing; fetch: failure *)
@@ -106,17 +114,23 @@ Fixpoint assoc_bits (l : list (N * N)) (i : N) : N :=
 Definition fetch_len (prm : mparams) (c : cur) : N :=
   N.min (snd (describe prm c)) (round_page (max_fetch prm) (page prm)).
 
-Fixpoint override_pages (fs : procfs) (pg first_page start : N) (idxs : list N) (buf : list N)
+(* the page loop of CurrentRegion::fetch: page i of the chunk is re-read when
+   `page_bits & 0xC != 0 && !(page_bits & 0x2 != 0 && partial_page_index != Some(i))` *)
+Definition page_reread (fs : procfs) (first_page : N) (partial : option N) (i : N) : bool :=
+  let b := assoc_bits (pm_bits fs) (first_page + i) in
+  page_from_mem b || (page_present b && match partial with Some p => p =? i | None => false end).
+
+Fixpoint override_pages (fs : procfs) (pg : N) (src : N -> bool) (start : N) (idxs : list N) (buf : list N)
   : option (list N) :=
   match idxs with
   | [] => Some buf
   | i :: rest =>
-      if page_from_mem (assoc_bits (pm_bits fs) (first_page + i)) then
+      if src i then
         match read_mem fs (start + i * pg) pg with
-        | Some bytes => override_pages fs pg first_page start rest (splice buf (i * pg) bytes)
+        | Some bytes => override_pages fs pg src start rest (splice buf (i * pg) bytes)
         | None => None
         end
-      else override_pages fs pg first_page start rest buf
+      else override_pages fs pg src start rest buf
   end.
 
 Definition model_fetch (fs : procfs) (prm : mparams) (c : cur) : pout :=
@@ -132,7 +146,8 @@ Definition model_fetch (fs : procfs) (prm : mparams) (c : cur) : pout :=
       let npages := ln / page prm in
       let first_page := st / page prm in
       if (0 <? npages) && (pm_entries fs <? first_page + npages) then ONone
-      else match override_pages fs (page prm) first_page st (nseq 0 npages) buf0 with
+      else match override_pages fs (page prm) (page_reread fs first_page (partial_page (page prm) maxl ln)) st
+                                (nseq 0 npages) buf0 with
            | Some b => OFetched st b
            | None => ONone
            end
